@@ -130,23 +130,43 @@ func (g *gen) doInstr(ci *cfgInfo, in ssa.Instruction) {
 		zero := g.constArray(fmt.Sprintf("(Array %s %s)", g.idx, es), es, x.Type().Underlying().(*types.Slice).Elem())
 		g.setComp(h, sx("store", g.comp(h, ""), addr, zero))
 		g.setVal(x, sx("mk-slice", addr, g.idxLit(0), n))
-	case *ssa.MakeMap, *ssa.MakeChan:
-		g.freshVal(x.(ssa.Value))
+	case *ssa.MakeMap:
+		mt := x.Type().Underlying().(*types.Map)
+		_, hc, ks, _ := g.mapComps(mt)
+		addr := g.allocAddrNew()
+		g.setComp(hc, sx("store", g.comp(hc, ""), addr, fmt.Sprintf("((as const (Array %s Bool)) false)", ks)))
+		g.vals[x] = T{S: addr, Sort: sPtr, GoT: x.Type()}
+	case *ssa.MakeChan:
+		g.freshVal(x)
 	case *ssa.MakeClosure:
 		g.closures[x] = x
 		t := g.freshVal(x)
 		g.assume(not(sx("=", t.S, "fnnil")))
 	case *ssa.Lookup:
-		if x.CommaOk {
+		mt, isMap := x.X.Type().Underlying().(*types.Map)
+		if !isMap {
 			g.freshVal(x)
-		} else {
-			g.freshVal(x)
+			break
 		}
-		if _, ok := x.X.Type().Underlying().(*types.Map); ok {
-			g.unmodelled("map lookup", x.Pos())
+		vc, hc, _, vs := g.mapComps(mt)
+		m, k := g.operand(x.X), g.operand(x.Index)
+		has := sx("select", sx("select", g.comp(hc, ""), m.S), k.S)
+		val := sx("ite", has, sx("select", sx("select", g.comp(vc, ""), m.S), k.S), g.zeroOfSort(vs, mt.Elem()))
+		_, sg := g.sortOf(mt.Elem())
+		vt := T{S: g.define("mv", vs, val), Sort: vs, Signed: sg, GoT: mt.Elem()}
+		if x.CommaOk {
+			g.tuples[x] = []T{vt, {S: g.define("mok", sBool, has), Sort: sBool}}
+			g.vals[x] = T{S: "TUPLE", Sort: "TUPLE"}
+		} else {
+			g.vals[x] = vt
 		}
 	case *ssa.MapUpdate:
-		g.unmodelled("map update", x.Pos())
+		mt := x.Map.Type().Underlying().(*types.Map)
+		vc, hc, _, _ := g.mapComps(mt)
+		m, k, v := g.operand(x.Map), g.operand(x.Key), g.operand(x.Value)
+		cv, ch := g.comp(vc, ""), g.comp(hc, "")
+		g.setComp(vc, sx("store", cv, m.S, sx("store", sx("select", cv, m.S), k.S, v.S)))
+		g.setComp(hc, sx("store", ch, m.S, sx("store", sx("select", ch, m.S), k.S, "true")))
 	case *ssa.Range:
 		g.freshVal(x)
 		g.unmodelled("range over map/string", x.Pos())
@@ -646,8 +666,15 @@ func (g *gen) doBuiltin(x *ssa.Call, b *ssa.Builtin) {
 		g.havocHeap("copy")
 	case "panic":
 		g.exitReach[g.curBlock] = "false"
-	case "print", "println", "delete", "close", "clear":
-		if b.Name() == "delete" || b.Name() == "clear" {
+	case "delete":
+		if mt, ok := args[0].Type().Underlying().(*types.Map); ok {
+			_, hc, _, _ := g.mapComps(mt)
+			m, k := g.operand(args[0]), g.operand(args[1])
+			ch := g.comp(hc, "")
+			g.setComp(hc, sx("store", ch, m.S, sx("store", sx("select", ch, m.S), k.S, "false")))
+		}
+	case "print", "println", "close", "clear":
+		if b.Name() == "clear" {
 			g.unmodelled(b.Name(), x.Pos())
 		}
 	case "min", "max":
